@@ -4,7 +4,7 @@ from props import simcommon
 HARNESS = ["sim"]
 ASSUMPTIONS = ["no equivocation (fork-free DAG); honest nodes only; signature R components pairwise distinct",
                "ECDSA signing is randomised: a seed fixes the schedule, not the signature bytes",
-               "theorems: static validator set inside one fame decision; view_ok/same_history hypotheses (stages S1-S3) not yet discharged from the DAG invariants"]
+               "theorems: C01_fame_agreement / C01_fame_decision_stable hold for all reachable states of the per-event pipeline under static membership (no accepted internal transaction) with no fork across the two nodes; no consensus pass ever fails there (C01_no_pass_fails); the view_ok/same_history hypotheses of the _partial theorems are discharged (stages S1-S3); block-level agreement (round-received, frames) is not yet proved"]
 
 def run(ctx):
     cov, findings, diffs = None, [], []
